@@ -318,8 +318,12 @@ def run(spec, ctx):
         m.check('%s{=%s}' % (head, v[1:]), 'invalid:leading-before-brace',
                 expect='reject')
         err = rng.choice(ERRS)
-        m.check(err + rng.choice(('xyz', '+1', ' 2', '(1)', '!', 'A1')),
-                'invalid:trailing-after-error', expect='reject')
+        tail = rng.choice(('xyz', '+1', ' 2', '(1)', '!', 'A1'))
+        if err == '#REF!' and tail == 'A1':
+            tail = 'A1B'        # #REF!A1 is what Excel writes for a deleted sheet
+        m.check(err + tail, 'invalid:trailing-after-error', expect='reject')
+        m.check('=#REF!%s+1' % rng.choice(('A1', '$B$2', 'A1:C3')), 'valid-deleted-sheet',
+                expect='accept')
         m.check(rng.choice((err, ' %s ' % err, err.lower())), 'valid-error-alone')
     # letter case: the same formulas in another case, error literals included
     for i in range(n // 12):
